@@ -10,9 +10,9 @@
 (* A suite is a record [kem, kdf, aead] of names.                                  *)
 EXTENDS HKDFLabeled, XWing, OutputPrefix
 
-KEMs  == {"P256", "P384", "P521", "X25519", "MLKEM768", "MLKEM1024", "XWING"}
-KDFs  == {"SHA256", "SHA384", "SHA512"}
-AEADs == {"AES128GCM", "AES256GCM", "CHACHA20POLY1305"}
+HpkeKEMs  == {"P256", "P384", "P521", "X25519", "MLKEM768", "MLKEM1024", "XWING"}
+HpkeKDFs  == {"SHA256", "SHA384", "SHA512"}
+HpkeAEADs == {"AES128GCM", "AES256GCM", "CHACHA20POLY1305"}
 DHKEMs == {"P256", "P384", "P521", "X25519"}
 
 \* RFC 9180 7.1 table 2 (+ IANA registry for 0x0041, 0x0042, 0x647a)
@@ -138,10 +138,10 @@ HpkeOpen(s, skR, msg, info, aad, MLD(_, _, _)) ==
 ------------------------------------------------------------------------------------
 (* Tink wire format (documented): ciphertext = output prefix || enc || ct, empty aad, *)
 (* context info = HPKE info.  Variants TINK, CRUNCHY, NO_PREFIX.                      *)
-TinkDecrypt(s, variant, id, skR, ciphertext, info, MLD(_, _, _)) ==
+HpkeTinkDecrypt(s, variant, id, skR, ciphertext, info, MLD(_, _, _)) ==
   LET p == Prefix(variant, id)
   IN IF ~IsPrefixOf(p, ciphertext) THEN <<FALSE, <<>>>>
      ELSE HpkeOpen(s, skR, Drop(ciphertext, Len(p)), info, <<>>, MLD)
 
-TinkFrame(variant, id, msg) == Prefix(variant, id) \o msg
+HybridFrame(variant, id, msg) == Prefix(variant, id) \o msg
 ================================================================================
